@@ -171,7 +171,7 @@ def cmd_run(name, props):
     return rc
 
 
-REFAC = os.path.join(VERIF, "refactors")
+REFAC = os.environ.get("VERIF_REFAC_DIR") or os.path.join(VERIF, "refactors")     # a staging directory while a regression is running
 
 
 def cmd_run_combos(which):
